@@ -27,6 +27,7 @@ pub mod c19;
 pub mod corpus;
 pub mod c05;
 pub mod c12;
+pub mod c20;
 
 #[cfg(not(any(miri, verif_no_alloc_monitor)))]
 #[global_allocator]
@@ -77,6 +78,8 @@ fn main() {
                 "c19" => if replay { c19::replay(&a2, &mut rep) } else { c19::run(&a2, &mut rep) },
                 "c05" => if replay { c05::replay(&a2, &mut rep) } else { c05::run(&a2, &mut rep) },
                 "c12" => if replay { c12::replay(&a2, &mut rep) } else { c12::run(&a2, &mut rep) },
+                "c20" => if replay { c20::replay(&a2, &mut rep) } else { c20::run(&a2, &mut rep) },
+                "c06n" => if replay { c20::replay_c06n(&a2, &mut rep) } else { c20::run_c06n(&a2, &mut rep) },
                 other => {
                     eprintln!("unknown check {}", other);
                     std::process::exit(2)
